@@ -56,6 +56,8 @@ open Cherab.Props.C18 Cherab.Props.C18Real
 #print axioms attach_inv
 #print axioms attach_history_inv
 #print axioms notified_iff_holds
+#print axioms notify_reaches_every_live_observer
+#print axioms surviving_holder_is_notified_once
 -- integrals over ℝ
 #print axioms transverse_integral_unit
 #print axioms cbg_cross_section
